@@ -26,13 +26,13 @@ RULE = (
     "unresolvable; backing {files in 1 root, files in 2 roots, put_string}. distinct = by (file set texts, "
     "backing); non-trivial = at least one reference crosses directories with a relative URI and resolves."
 )
-RULE += ' added since: twin references to one target, falsy include arguments, includes executed inside defs (context stack modelled), a base that itself includes a file, twin base templates in different directories, an inheritable namespace declared in the inheriting template, next-key probes. directed: templates whose URIs differ only in punctuation each declaring a same-named namespace and included into one render; the API (get_namespace / get_template / include_file) of a named file namespace declared in a deeper template. 2-3 nameless <%namespace import=> tags back to back / space separated / one per line. relative <%inherit> URIs in chains of 3-4 templates over directories (direct / include / namespace; decoys). module namespaces with an inline def named like a module callable; the same relative URI asked for from three depths in one render.'
+RULE += ' added since: twin references to one target, falsy include arguments, includes executed inside defs (context stack modelled), a base that itself includes a file, twin base templates in different directories, an inheritable namespace declared in the inheriting template, next-key probes. directed: templates whose URIs differ only in punctuation each declaring a same-named namespace and included into one render; the API (get_namespace / get_template / include_file) of a named file namespace declared in a deeper template. 2-3 nameless <%namespace import=> tags back to back / space separated / one per line. relative <%inherit> URIs in chains of 3-4 templates over directories (direct / include / namespace; decoys). module namespaces with an inline def named like a module callable; the same relative URI asked for from three depths in one render. inline defs of import= namespaces against a context variable of the same name.'
 ASSUMPTIONS = [
     "put_string-backed sets use relative URIs without dot segments only (keys are literal URIs)",
     "templates are identified by a tag in their text, not by Template.uri (which keeps the joined spelling)",
 ]
 MIN_NONTRIVIAL = 200
-REQUIRED_COUNTERS = ["sets_rendered", "relative_cross_directory_resolutions", "unresolvable_matched", "include_args_checked", "import_beats_context", "inline_def_precedence", "inheritable_via_self", "module_namespace_calls", "sibling_namespace_renders", "namespace_api_resolutions", "nameless_namespace_renders", "relative_inherit_chains", "module_namespace_inline_defs", "same_relative_uri_from_several_depths"]
+REQUIRED_COUNTERS = ["sets_rendered", "relative_cross_directory_resolutions", "unresolvable_matched", "include_args_checked", "import_beats_context", "inline_def_precedence", "inheritable_via_self", "module_namespace_calls", "sibling_namespace_renders", "namespace_api_resolutions", "nameless_namespace_renders", "relative_inherit_chains", "module_namespace_inline_defs", "same_relative_uri_from_several_depths", "inline_defs_in_import_namespaces"]
 
 _st = {}
 
@@ -610,6 +610,23 @@ def run_directed(res):
         if got != "INLINE[q]|MODFN2[r]":
             res.violate("module-namespace-inline-def", "<%%namespace module=...> with an inline def named like a module callable (%s): rendered %r, expected 'INLINE[q]|MODFN2[r]'" % (style, got))
         res.nontrivial("mod-inline", style)
+
+    # (G) a def written inside a <%namespace ... import="..."> tag belongs to that namespace: unqualified it is visible
+    # only if the import list names it (or is *); otherwise the bare name means what it meant before (context / UNDEFINED)
+    for imp, want in (("fn0", "[ctx-label|F0|inline-label]"), ("fn0, label", "[inline-label|F0|inline-label]"), ("*", "[inline-label|F0|inline-label]")):
+        for nameless in (True, False):
+            lk = L()
+            lk.put_string("/lib0.html", '<%def name="fn0()">F0</%def>')
+            tag = '<%%namespace %sfile="/lib0.html" import="%s"><%%def name="label()">inline-label</%%def></%%namespace>' % ("" if nameless else 'name="nn" ', imp)
+            qualified = "inline-label" if nameless else "${nn.label()}"
+            lk.put_string("/g.html", tag + "[${label() if callable(label) else label}|${fn0()}|%s]" % qualified)
+            got = render(lk, "/g.html", label="ctx-label")
+            res.evaluations += 1
+            res.count("inline_defs_in_import_namespaces")
+            if got != want:
+                res.violate("inline-def-leaks-unqualified", "<%%namespace %simport=%r> holding an inline def `label`, context has label='ctx-label': rendered %r, expected %r" % (
+                    "" if nameless else "name=nn ", imp, got, want))
+    res.nontrivial("inline-import")
 
     # (F) get_namespace with the SAME relative URI string from templates at different depths within one render: each
     # call resolves against its own template (and a call that leaves the root is unresolvable whatever came before)
